@@ -122,7 +122,10 @@ impl Scheduler for PlanScheduler {
       let mut choice = if cur_runnable && !is_yielding {
          cur.unwrap()
       } else if is_yielding {
-         lowest(cur).or(cur).unwrap_or(ids[0])
+         // a spinning task (contended simulated lock) hands over round-robin, so that the lock
+         // holder is reached whatever its id is
+         let next_after = cur.and_then(|c| ids.iter().cloned().filter(|i| *i > c).min());
+         next_after.or_else(|| lowest(cur)).or(cur).unwrap_or(ids[0])
       } else {
          lowest(None).unwrap()
       };
@@ -143,6 +146,9 @@ impl Scheduler for PlanScheduler {
                   if self.sparse_points.binary_search(&cp).is_ok() {
                      deviate_to = Some(*rng.pick(&others));
                   },
+               // a spinning task (is_yielding) reports that it cannot progress: starving the lock
+               // holder then would be a livelock made by the scheduler, not by the code
+               GenMode::Starve { .. } if is_yielding => {},
                GenMode::Starve { victim, p } => {
                   let non_victims: Vec<u32> = others.iter().cloned().filter(|i| i != victim).collect();
                   if default_choice == *victim {
